@@ -324,6 +324,8 @@ class FromField(Metric):
             I = np.where(interval.within(values_array[axis_pos]))[0]
             values = values[I]
 
+        if len(values) == 0:
+            return np.nan
         return self.aggregator(values)
 
     def label(self, variable):
